@@ -492,7 +492,7 @@ theorem divide_spec {x y : ED} (hx : ECanon x) (hy : ECanon y) (hnx : NZ x) (hy0
     toInt (divide x y).1 = Int.tdiv (toInt x) (toInt y) ∧ toInt (divide x y).2 = Int.tmod (toInt x) (toInt y) ∧
       ECanon (divide x y).1 ∧ ECanon (divide x y).2 ∧
       ((divide x y).1.neg = (x.neg != y.neg) ∨ (divide x y).1 = zero) ∧
-      (x.neg = false → (divide x y).2.neg = false) := by
+      (x.neg = false → (divide x y).2.neg = false) ∧ NZ (divide x y).1 ∧ NZ (divide x y).2 := by
   have hac : ECanon { x with neg := false } := hx
   have hbc : ECanon { y with neg := false } := hy
   have hBpos : 0 < toNat y.d := Nat.pos_of_ne_zero hy0
@@ -503,7 +503,7 @@ theorem divide_spec {x y : ED} (hx : ECanon x) (hy : ECanon y) (hnx : NZ x) (hy0
   by_cases hlt : (toNat x.d : Int) < toNat y.d
   · have hlt' : toNat x.d < toNat y.d := by exact_mod_cast hlt
     simp only [hlt, decide_true, if_true]
-    refine ⟨?_, ?_, ecanon_zero, hx, Or.inr trivial, fun h => h⟩
+    refine ⟨?_, ?_, ecanon_zero, hx, Or.inr trivial, fun h => h, nz_zero, hnx⟩
     · rw [Nat.div_eq_of_lt hlt']; simp [sgn, zero, toNat]
     · rw [Nat.mod_eq_of_lt hlt']; simp [sgn]
   · have hge : toNat y.d ≤ toNat x.d := by
@@ -532,9 +532,13 @@ theorem divide_spec {x y : ED} (hx : ECanon x) (hy : ECanon y) (hnx : NZ x) (hy0
         { acc := { x with neg := false }, sub := shl { y with neg := false } (x.d.length - y.d.length), quot := [0] } := by
       refine ⟨rfl, hac, rfl, ?_, ?_, ?_, ?_, by simp⟩
       · unfold shl
+        have hzb : isZero { y with neg := false } = false := by
+          cases hh : isZero { y with neg := false } with
+          | false => rfl
+          | true => exact absurd ((isZero_iff _).mp hh) hy0
         by_cases h0 : x.d.length - y.d.length = 0
         · simp [h0]
-        · simp [h0]
+        · simp [h0, hzb]
       · -- A < 10^la ≤ Bv * 10^(la - lb + 1)
         have h1 := toNat_lt hx.1
         have h2 : 10 ^ (y.d.length - 1) ≤ toNat y.d := by
@@ -551,31 +555,115 @@ theorem divide_spec {x y : ED} (hx : ECanon x) (hy : ECanon y) (hnx : NZ x) (hy0
       · intro d hd; simp at hd; omega
     obtain ⟨r1, r2, r3, r4, r5, r6⟩ := divLoop_spec (toNat x.d) (toNat y.d) y.d hy.1 hy.2 rfl hBpos _ _ hinv
     obtain ⟨c1, c2⟩ := divmod_cert' hBpos r4 r3
-    refine ⟨?_, ?_, ⟨dOk_unpad r5, unpadded_unpad r6⟩, ?_, Or.inl trivial, ?_⟩
+    have hA : 0 < toNat x.d := by omega
+    have hz : isZero (divLoop (x.d.length - y.d.length + 1)
+        { acc := { x with neg := false }, sub := shl { y with neg := false } (x.d.length - y.d.length), quot := [0] }).acc
+        = decide (toNat x.d % toNat y.d = 0) := by
+      by_cases h0 : toNat x.d % toNat y.d = 0
+      · have h0' := h0
+        rw [c2] at h0; simp [(isZero_iff _).mpr h0, h0']
+      · have h0' := h0
+        rw [c2] at h0
+        have : isZero (divLoop (x.d.length - y.d.length + 1)
+            { acc := { x with neg := false }, sub := shl { y with neg := false } (x.d.length - y.d.length), quot := [0] }).acc = false := by
+          cases hh : isZero _ with
+          | false => rfl
+          | true => exact absurd ((isZero_iff _).mp hh) h0
+        simp [this, h0']
+    have hlt0 : lt x zero = decide (toInt x < 0) := by rw [lt_spec hx ecanon_zero hnx nz_zero, toInt_zero]
+    have hne : (divLoop (x.d.length - y.d.length + 1)
+        { acc := { x with neg := false }, sub := shl { y with neg := false } (x.d.length - y.d.length), quot := [0] }).acc.d ≠ [] := r1.2.1
+    have hq1 : 1 ≤ toNat x.d / toNat y.d := Nat.div_pos hge hBpos
+    rw [hlt0, hz]
+    refine ⟨?_, ?_, ⟨dOk_unpad r5, unpadded_unpad r6⟩, ?_, Or.inl trivial, ?_, ?_, ?_⟩
     · simp only [sgn, toNat_unpad, c1]
-    · rw [lt_spec hx ecanon_zero hnx nz_zero, toInt_zero]
-      have hA : 0 < toNat x.d := by omega
-      cases hxn : x.neg with
+    · cases hxn : x.neg with
       | true =>
-        have : toInt x < 0 := by simp [toInt, hxn]; omega
-        simp only [this, decide_true, if_true, sgn, toNat_unpad, r2, Bool.not_false, c2]
+        have hneg : toInt x < 0 := by simp [toInt, hxn]; omega
+        by_cases h0 : toNat x.d % toNat y.d = 0
+        · simp only [hneg, h0, decide_true, Bool.not_true, Bool.and_false, Bool.false_eq_true, if_false]
+          simp only [toInt, r2, Bool.false_eq_true, if_false, toNat_unpad, sgn, if_true, ← c2, h0]; simp
+        · simp only [hneg, h0, decide_true, decide_false, Bool.not_false, Bool.and_true, if_true]
+          simp only [toInt, r2, Bool.not_false, if_true, toNat_unpad, sgn, ← c2]
       | false =>
-        have : ¬ toInt x < 0 := by simp [toInt, hxn]
-        simp only [this, decide_false, Bool.false_eq_true, if_false, sgn, toNat_unpad, r2, c2]
-    · have hne : (divLoop (x.d.length - y.d.length + 1)
-          { acc := { x with neg := false }, sub := shl { y with neg := false } (x.d.length - y.d.length), quot := [0] }).acc.d ≠ [] := r1.2.1
-      split
+        have hneg : ¬ toInt x < 0 := by simp [toInt, hxn]
+        simp only [hneg, decide_false, Bool.false_and, Bool.false_eq_true, if_false]
+        simp only [toInt, r2, Bool.false_eq_true, if_false, toNat_unpad, sgn, ← c2]
+    · split
       · exact ⟨dOk_unpad r1.1, unpadded_unpad hne⟩
       · exact ⟨dOk_unpad r1.1, unpadded_unpad hne⟩
     · intro hxn
-      rw [lt_spec hx ecanon_zero hnx nz_zero, toInt_zero]
-      have : ¬ toInt x < 0 := by simp [toInt, hxn]
-      simp only [this, decide_false, Bool.false_eq_true, if_false, r2]
+      have hneg : ¬ toInt x < 0 := by simp [toInt, hxn]
+      simp only [hneg, decide_false, Bool.false_and, Bool.false_eq_true, if_false, r2]
+    · intro ⟨_, h2⟩
+      simp only [toNat_unpad, c1] at h2
+      omega
+    · intro ⟨h1, h2⟩
+      by_cases h0 : toNat x.d % toNat y.d = 0
+      · simp only [h0, decide_true, Bool.not_true, Bool.and_false, Bool.false_eq_true, if_false, r2] at h1
+      · have hr : toNat (divLoop (x.d.length - y.d.length + 1)
+            { acc := { x with neg := false }, sub := shl { y with neg := false } (x.d.length - y.d.length), quot := [0] }).acc.d ≠ 0 := by
+          rw [← c2]; exact h0
+        split at h2
+        · simp only [toNat_unpad] at h2; exact hr h2
+        · simp only [toNat_unpad] at h2; exact hr h2
 
 theorem mul_neg_or_zero (x r : ED) : (mul x r).neg = (x.neg != r.neg) ∨ mul x r = zero := by
   unfold mul
   split
   · right; rfl
   · left; rfl
+
+/-! ### operator-() -/
+
+theorem neg_d (x : ED) : (neg x).d = x.d := by unfold neg; split <;> rfl
+
+theorem neg_spec (x : ED) : toInt (neg x) = -toInt x := by
+  unfold neg
+  by_cases hz : isZero x = true
+  · have h0 := (isZero_iff x).mp hz
+    simp only [hz, if_true, toInt, h0]; split <;> simp
+  · simp only [hz, Bool.false_eq_true, if_false, toInt]
+    by_cases h : x.neg = true <;> simp [h]
+
+theorem ecanon_neg {x : ED} (h : ECanon x) : ECanon (neg x) := by
+  unfold ECanon; rw [neg_d]; exact h
+
+/-- negation never produces a negative zero -/
+theorem neg_nz {x : ED} (h : NZ x) : NZ (neg x) := by
+  unfold neg
+  by_cases hz : isZero x = true
+  · simp only [hz, if_true]; exact h
+  · simp only [hz, Bool.false_eq_true, if_false]
+    intro ⟨_, h2⟩
+    exact hz ((isZero_iff x).mpr h2)
+
+theorem neg_flag {x : ED} (h : NZ x) (hn : x.neg = true) : (neg x).neg = false := by
+  unfold neg
+  have hz : isZero x = false := by
+    cases hh : isZero x with
+    | false => rfl
+    | true => exact absurd ⟨hn, (isZero_iff x).mp hh⟩ h
+  simp [hz, hn]
+
+theorem mul_nz {a b : ED} (ha : ECanon a) (hb : ECanon b) : NZ (EDec.mul a b) := by
+  intro ⟨h1, h2⟩
+  have hs := mul_spec ha hb
+  unfold EDec.mul at h1 h2 hs
+  by_cases hz : (EDec.isZero a || EDec.isZero b) = true
+  · simp [hz, EDec.zero] at h1
+  · simp only [hz, Bool.false_eq_true, if_false] at h1 h2 hs
+    have ha0 : EDec.toNat a.d ≠ 0 := by
+      intro h0; apply hz; simp [(isZero_iff a).mpr h0]
+    have hb0 : EDec.toNat b.d ≠ 0 := by
+      intro h0; apply hz; simp [(isZero_iff b).mpr h0]
+    have e := hs.1
+    have hne : EDec.toInt a * EDec.toInt b ≠ 0 := by
+      apply Int.mul_ne_zero
+      · unfold EDec.toInt; split <;> simp <;> omega
+      · unfold EDec.toInt; split <;> simp <;> omega
+    apply hne
+    rw [← e]
+    simp [EDec.toInt, h2]
 
 end UVerif.EDec
